@@ -70,10 +70,23 @@ structure Cfg where
   destroyClosesChildren : Bool
   /-- `get_span_text` no longer stores `buffer[bytes] = 0` unconditionally (fixes/C08_span_text_exact_fit.patch) -/
   spanExactFit : Bool
+  /-- `on_term_mouse` holds a reference on the root window across its dispatches
+      (fixes/C08_mouse_dispatch_keeps_root.patch) -/
+  mouseKeepsRoot : Bool
+  /-- `tickit_window_new_root2` initialises `mouse_last_button/line/col` (fixes/C08_init_last_press.patch) -/
+  lastPressInit : Bool
+  /-- `_handle_mouse` reports no window from a closed or dying frame and the purge of a closing subtree forgets
+      the drag source in it (fixes/C08_drag_source_forgotten.patch) -/
+  dragSourceForgotten : Bool
 deriving Repr, DecidableEq, Inhabited
 
-def Cfg.orig : Cfg := ⟨false, false, false⟩
-def Cfg.fixed : Cfg := ⟨true, true, true⟩
+def Cfg.orig : Cfg := ⟨false, false, false, false, false, false⟩
+def Cfg.fixed : Cfg := ⟨true, true, true, true, true, true⟩
+
+/-- What an `int` of freshly `malloc`ed memory reads as in the sanitizer build the harness runs
+    (AddressSanitizer fills new allocations with `0xbe`): `(int)0xbebebebe`.  Only used to mirror the tree
+    before fixes/C08_init_last_press.patch. -/
+def uninitInt : Int := -1094795586
 
 /-! ## objects -/
 
@@ -169,6 +182,8 @@ structure St where
   termIter : Bool := false
   /-- number of `HierarchyChange` records that were never freed (a root destroyed with requests queued) -/
   leakedReqs : Nat := 0
+  /-- the root window has seen a PRESS (otherwise `mouse_last_*` is whatever `tickit_window_new_root2` left there) -/
+  pressSeen : Bool := false
   /-- handler invocations of the current operation, oldest first -/
   log : List String := []
 deriving Repr, Inhabited
@@ -303,7 +318,14 @@ def purge (cfg : Cfg) (t : Tree) (win : Id) : Out Tree :=
     | none => pure t
     | some _ => do
       let cs ← purgeFilter t win t.root.changes
-      pure { t with root := { t.root with changes := cs } }
+      let t := { t with root := { t.root with changes := cs } }
+      if cfg.dragSourceForgotten then
+        match t.root.dragSource with
+        | some src => do
+          let inside ← within t (chainFuel t) src win
+          pure (if inside then { t with root := { t.root with dragSource := none } } else t)
+        | none => pure t
+      else pure t
   else do
     let _ ← getRootA t (chainFuel t) win
     pure { t with root := { t.root with changes := t.root.changes.filter (fun r => r.parent ≠ win ∧ r.win ≠ win) } }
@@ -578,6 +600,29 @@ def heldP (st : St) (k : Nat) : Bool :=
 
 def heldT (st : St) : Bool := !st.term.freed && st.term.appRefs > 0
 
+/-- The window still belongs to the tree: its parent chain reaches the (live) root. -/
+def attached (st : St) : Nat → Id → Bool
+  | 0, _ => false
+  | fuel + 1, w =>
+    match st.tree.wins[w]? with
+    | none => false
+    | some x =>
+      if x.freed then false
+      else if x.isRoot then true
+      else match x.parent with
+        | none => false
+        | some p => attached st fuel p
+
+def attachedW (st : St) (w : Id) : Bool := attached st (chainFuel st.tree) w
+
+/-- The application may use the window for more than ref/unref/close (the harness's `usable`):
+    `tickit_window_close(3)`: after a close "the only operation that is defined any more is
+    tickit_window_unref"; the same goes for the windows below a closed one. -/
+def usableW (st : St) (i : Id) : Bool :=
+  match st.tree.wins[i]? with
+  | none => false
+  | some w => !w.freed && (st.wx[i]?.getD {}).appRefs > 0 && attachedW st i
+
 def liftT (st : St) (r : Out Tree) : Out St := do
   let t ← r
   pure { st with tree := t }
@@ -591,9 +636,9 @@ def simpleOp (cfg : Cfg) (st : St) (a : Act) (self : Option (Id × Int)) : Optio
   | .ref w => if heldW st w then
       some (refW (setX st w { getX st w with appRefs := (getX st w).appRefs + 1 }) w) else none
   | .close w => if heldW st w then some (liftT st (closeT cfg st.tree w)) else none
-  | .restack c w => if heldW st w then some (liftT st (request st.tree c w)) else none
-  | .hide w => if heldW st w then some (liftT st (hideT st.tree w)) else none
-  | .«show» w => if heldW st w then some (liftT st (showT st.tree w)) else none
+  | .restack c w => if usableW st w then some (liftT st (request st.tree c w)) else none
+  | .hide w => if usableW st w then some (liftT st (hideT st.tree w)) else none
+  | .«show» w => if usableW st w then some (liftT st (showT st.tree w)) else none
   | .flush => if heldW st 0 then some (liftT st (flushT st.tree)) else none
   | .unbindSelf =>
     match self with
@@ -601,7 +646,7 @@ def simpleOp (cfg : Cfg) (st : St) (a : Act) (self : Option (Id × Int)) : Optio
     | some (w, id) =>
       let x := getX st w
       -- the behaviour record is marked unused by the harness the first time
-      if heldW st w && x.binds.any (fun b => b.id = id && b.used) then
+      if usableW st w && x.binds.any (fun b => b.id = id && b.used) then
         some (unbindEvent (setX st w { x with binds := x.binds.map (fun b => if b.id = id then { b with used := false } else b) }) w id)
       else none
 
@@ -723,6 +768,8 @@ def handleMouse (cfg : Cfg) : Nat → St → Id → Mouse → Out (St × Option 
       let (st, r) ← if r.isSome then pure (st, r) else do
         let (st, h) ← runBinds cfg st win .mouse (logMouse win info)
         pure (st, if h then some win else none)
+      let w ← getW st win
+      let r := if cfg.dragSourceForgotten && (w.isClosed || w.refcount = 1) then none else r
       let st ← unrefW cfg st win
       pure (st, r)
 
@@ -760,13 +807,16 @@ def emitMouse (cfg : Cfg) (st : St) (info : Mouse) : Out St := do
     else do
       let st := { st with termIter := true }
       let fuel := routeFuel st
+      let st ← if cfg.mouseKeepsRoot then refW st 0 else pure st
       let root (st : St) := st.tree.root
       let setRoot (st : St) (f : WinTree.Root → WinTree.Root) : St := { st with tree := { st.tree with root := f st.tree.root } }
       -- every access to `root->…` reads the root window's memory
       let st ← if info.type = mPRESS then
-          pure (setRoot st (fun r => { r with mouseLastButton := info.button, mouseLastLine := info.line, mouseLastCol := info.col }))
+          pure { (setRoot st (fun r => { r with mouseLastButton := info.button, mouseLastLine := info.line, mouseLastCol := info.col })) with pressSeen := true }
         else if info.type = mDRAG && !(root st).mouseDragging then do
-          let d : Mouse := ⟨mDRAG_START, (root st).mouseLastButton, (root st).mouseLastLine, (root st).mouseLastCol⟩
+          let d : Mouse := if st.pressSeen || cfg.lastPressInit
+            then ⟨mDRAG_START, (root st).mouseLastButton, (root st).mouseLastLine, (root st).mouseLastCol⟩
+            else ⟨mDRAG_START, uninitInt, uninitInt, uninitInt⟩
           let (st, src) ← handleMouse cfg fuel st 0 d
           let _ ← getW st 0
           pure (setRoot st (fun r => { r with dragSource := src, mouseDragging := true }))
@@ -794,6 +844,7 @@ def emitMouse (cfg : Cfg) (st : St) (info : Mouse) : Out St := do
             else pure st
           | none => pure st
         else pure st
+      let st ← if cfg.mouseKeepsRoot then unrefW cfg st 0 else pure st
       if st.term.freed then .ub .mem "terminal freed while its bindings are being run"
       else pure { st with termIter := false }
 
